@@ -13,9 +13,11 @@
 (*         worker's queries expose): listeners with active flag, clusters, *)
 (*         http / tcp frontends, backends                                  *)
 (*   rl    the listeners held by the proxies: records                      *)
-(*         [l, tok, active, routes, tcl]  (tok = slab key = listen token;  *)
-(*         active = has a bound, registered socket; routes = the router of *)
-(*         an http listener; tcl = the cluster of a tcp listener)          *)
+(*         [l, tok, active, sock, routes, tcl]  (tok = slab key = listen   *)
+(*         token; active = the listener's `active` flag; sock = it holds a *)
+(*         bound, registered socket (`listener` / `socket` is Some);       *)
+(*         routes = the router of an http listener; tcl = the cluster of a *)
+(*         tcp listener)                                                   *)
 (*   slabL listener tokens present in the session slab (the three system   *)
 (*         entries Channel/Timer/Metrics are implicit: SysEntries)         *)
 (*   base  base_sessions_count                                             *)
@@ -28,6 +30,10 @@
 (*   gate, pending, crashed   the accept gate (can_accept), accept_ready   *)
 (*         and whether the worker thread panicked (environment actions     *)
 (*         Env_* model client connections saturating the worker)           *)
+(*   held  listener addresses bound by a FOREIGN socket without            *)
+(*         SO_REUSEPORT (another daemon, a previous instance not yet gone):*)
+(*         server_bind / udp_bind on such an address fails (C07: a refused *)
+(*         ActivateListener must leave no trace in the worker)             *)
 (*                                                                         *)
 (* One action per run-to-completion step: Recv(r) (one request handled by  *)
 (* read_channel_messages_and_notify), Flush (send_queue), LoopEnd (the     *)
@@ -47,18 +53,20 @@ CONSTANTS Listeners,     \* subset of DOMAIN LDef
           Deterministic, \* TRUE: exclude requests whose outcome the code leaves open (generator)
           Preamble,      \* requests already handled in the initial state (a sequence of [k, a] records)
           Traffic,       \* TRUE: client connections may saturate the worker (accept gate, accept_ready)
+          Faults,        \* TRUE: the environment may hold / release listener addresses (OS-level bind failures)
           Emit           \* TRUE: print one REPLAY line per distinct transition (generator configs)
 
 VARIABLES cfg, rl, slabL, base, rcl, rbe, queue, out, n, term, shut, stopped, handed, allOk, hist, prev,
           gate,     \* SessionManager.can_accept
           pending,  \* accept_ready: listen tokens whose readiness was remembered while the gate was closed
-          crashed   \* the worker thread panicked
+          crashed,  \* the worker thread panicked
+          held      \* addresses (LDef[l].addr) bound by a foreign socket without SO_REUSEPORT
 
 vars == <<cfg, rl, slabL, base, rcl, rbe, queue, out, n, term, shut, stopped, handed, allOk, hist, prev,
-          gate, pending, crashed>>
+          gate, pending, crashed, held>>
 
 \* what distinguishes states for the model checker (out, hist and prev are histories)
-MCView == <<cfg, rl, slabL, base, rcl, rbe, queue, n, term, shut, stopped, handed, allOk, gate, pending, crashed>>
+MCView == <<cfg, rl, slabL, base, rcl, rbe, queue, n, term, shut, stopped, handed, allOk, gate, pending, crashed, held>>
 \* generator: one TLC state per (state, request) transition
 GenView == <<MCView, prev, IF hist = <<>> THEN <<>> ELSE hist[Len(hist)]>>
 
@@ -204,7 +212,7 @@ RtOutcomes(r) ==
          ELSE {[same EXCEPT !.rl = (rl \ {x}) \cup {[x EXCEPT !.tcl = "none"]}] : x \in Entries(TDef[a].l)}
     [] r.k = "AddListener" ->
          \* a vacant slab key becomes the listen token; duplicates of an address are not refused
-         {[same EXCEPT !.rl = @ \cup {[l |-> a, tok |-> FreshTok, active |-> FALSE, routes |-> {}, tcl |-> "none"]},
+         {[same EXCEPT !.rl = @ \cup {[l |-> a, tok |-> FreshTok, active |-> FALSE, sock |-> FALSE, routes |-> {}, tcl |-> "none"]},
                        !.slabL = @ \cup {FreshTok}, !.base = @ + 1]}
     [] r.k = "RemoveListener" ->
          \* every listener bound to the address goes away with its slab entry and its unit of base;
@@ -215,15 +223,29 @@ RtOutcomes(r) ==
                        !.slabL = @ \ {x.tok : x \in gone},
                        !.base = @ - Cardinality(gone)]}
     [] r.k = "Activate" ->
+         \* Listener::activate: the `active` guard answers Ok at once; otherwise server_bind / udp_bind
+         \* (fails when a foreign socket holds the address), register, and only then listener = Some,
+         \* active = true. A refused activation leaves the listener as it was (C07).
          IF Entries(a) = {} THEN {fail}
-         ELSE {[same EXCEPT !.rl = (rl \ {x}) \cup {[x EXCEPT !.active = TRUE]}] : x \in Entries(a)}
+         ELSE {IF x.active THEN same
+               ELSE IF LDef[a].addr \in held
+               THEN (IF "ActivateHalfDone" \in Deviations         \* the flag is raised before the fallible steps
+                     THEN [fail EXCEPT !.rl = (rl \ {x}) \cup {[x EXCEPT !.active = TRUE]}]
+                     ELSE IF "ActivateFailDrops" \in Deviations   \* a listener that cannot be bound is forgotten
+                     THEN [fail EXCEPT !.rl = rl \ {x}]
+                     ELSE fail)
+               ELSE [same EXCEPT !.rl = (rl \ {x}) \cup {[x EXCEPT !.active = TRUE, !.sock = TRUE]}]
+               : x \in Entries(a)}
     [] r.k = "Deactivate" ->
+         \* give_back_listener: listener.take().ok_or(UnactivatedListener), then active = false
          IF Entries(a) = {} THEN {fail}
-         ELSE {IF x.active THEN [same EXCEPT !.rl = (rl \ {x}) \cup {[x EXCEPT !.active = FALSE]}] ELSE fail
+         ELSE {IF x.sock THEN [same EXCEPT !.rl = (rl \ {x}) \cup {[x EXCEPT !.active = FALSE, !.sock = FALSE]}] ELSE fail
                : x \in Entries(a)}                                            \* the slab entry stays
     [] r.k = "UpdateListener"    -> IF Entries(a) = {} THEN {fail} ELSE {same}
     [] r.k = "UpdateListenerBad" -> {fail}
-    [] r.k = "ReturnSockets" -> {[same EXCEPT !.rl = {[x EXCEPT !.active = FALSE] : x \in rl}]}
+    \* give_back_listeners: every listener that holds a socket hands it over and lowers its flag
+    [] r.k = "ReturnSockets" -> {[same EXCEPT !.rl = {IF x.sock THEN [x EXCEPT !.active = FALSE, !.sock = FALSE] ELSE x
+                                                      : x \in rl}]}
     \* SoftStop / HardStop: every proxy drops its listeners; slab entries and base stay
     [] r.k \in {"SoftStop", "HardStop"} -> {[same EXCEPT !.rl = {}]}
 
@@ -246,11 +268,11 @@ PreState(k) ==
            tok == SysEntries + Cardinality(p.slabL)
        IN CASE r.k = "AddListener" ->
                  [cfg |-> [p.cfg EXCEPT !.lst[r.a] = "inactive"],
-                  rl |-> p.rl \cup {[l |-> r.a, tok |-> tok, active |-> FALSE, routes |-> {}, tcl |-> "none"]},
+                  rl |-> p.rl \cup {[l |-> r.a, tok |-> tok, active |-> FALSE, sock |-> FALSE, routes |-> {}, tcl |-> "none"]},
                   slabL |-> p.slabL \cup {tok}, base |-> p.base + 1]
             [] r.k = "Activate" ->
                  [p EXCEPT !.cfg.lst[r.a] = "active",
-                           !.rl = {[x EXCEPT !.active = (x.active \/ x.l = r.a)] : x \in p.rl}]
+                           !.rl = {[x EXCEPT !.active = (x.active \/ x.l = r.a), !.sock = (x.sock \/ x.l = r.a)] : x \in p.rl}]
 
 ASSUME \A i \in 1..Len(Preamble) : Preamble[i].k \in {"AddListener", "Activate"} /\ Preamble[i].a \in Listeners
 
@@ -263,7 +285,7 @@ Init ==
   /\ hist = [i \in 1..Len(Preamble) |->
                [req |-> Preamble[i], st |-> "ok", accepted |-> TRUE, base |-> PreState(i).base]]
   /\ prev = <<>>
-  /\ gate = TRUE /\ pending = {} /\ crashed = FALSE
+  /\ gate = TRUE /\ pending = {} /\ crashed = FALSE /\ held = {}
 
 \* read_channel_messages_and_notify: one request
 Recv(r) ==
@@ -279,7 +301,7 @@ Recv(r) ==
         /\ pending' = IF r.k \in {"Deactivate", "RemoveListener"}
                        THEN pending \ {x.tok : x \in rl \ o.rl}
                        ELSE pending
-        /\ UNCHANGED <<gate, crashed>>
+        /\ UNCHANGED <<gate, crashed, held>>
         /\ cfg' = cs.c
         /\ rcl' = o.rcl /\ rbe' = o.rbe
         /\ handed' = (handed \/ r.k = "ReturnSockets")
@@ -315,7 +337,7 @@ Recv(r) ==
 Flush ==
   /\ ~stopped /\ ~crashed /\ queue # <<>>
   /\ out' = out \o queue /\ queue' = <<>>
-  /\ UNCHANGED <<cfg, rl, slabL, base, rcl, rbe, n, term, shut, stopped, handed, allOk, hist, prev, gate, pending, crashed>>
+  /\ UNCHANGED <<cfg, rl, slabL, base, rcl, rbe, n, term, shut, stopped, handed, allOk, hist, prev, gate, pending, crashed, held>>
 
 \* end of a loop iteration while shutting down: shut_down_sessions (no client session is modelled
 \* here: the slab holds the system entries and the listener entries)
@@ -326,18 +348,18 @@ LoopEnd ==
   /\ out' = Append(out, Resp(shut, "ok"))
   /\ term' = [term EXCEPT ![shut] = @ + 1]
   /\ stopped' = TRUE
-  /\ UNCHANGED <<cfg, rl, slabL, base, rcl, rbe, queue, n, shut, handed, allOk, hist, prev, gate, pending, crashed>>
+  /\ UNCHANGED <<cfg, rl, slabL, base, rcl, rbe, queue, n, shut, handed, allOk, hist, prev, gate, pending, crashed, held>>
 
 \* Environment: client connections. max_connections is reached: check_limits closes the gate.
 Env_Saturate ==
   /\ Traffic /\ ~stopped /\ ~crashed /\ gate
   /\ gate' = FALSE
-  /\ UNCHANGED <<cfg, rl, slabL, base, rcl, rbe, queue, out, n, term, shut, stopped, handed, allOk, hist, prev, pending, crashed>>
+  /\ UNCHANGED <<cfg, rl, slabL, base, rcl, rbe, queue, out, n, term, shut, stopped, handed, allOk, hist, prev, pending, crashed, held>>
 \* ready(): a connection arrives on an active listener while the gate is closed: the token is remembered
 Env_Connect(x) ==
-  /\ Traffic /\ ~stopped /\ ~crashed /\ ~gate /\ x \in rl /\ x.active
+  /\ Traffic /\ ~stopped /\ ~crashed /\ ~gate /\ x \in rl /\ x.sock
   /\ pending' = pending \cup {x.tok}
-  /\ UNCHANGED <<cfg, rl, slabL, base, rcl, rbe, queue, out, n, term, shut, stopped, handed, allOk, hist, prev, gate, crashed>>
+  /\ UNCHANGED <<cfg, rl, slabL, base, rcl, rbe, queue, out, n, term, shut, stopped, handed, allOk, hist, prev, gate, crashed, held>>
 \* sessions close, decr() reopens the gate, handle_remaining_readiness replays every remembered token:
 \* it indexes the slab with the token (a vacant slot panics); accept() then forgets the token
 Env_Release ==
@@ -345,20 +367,41 @@ Env_Release ==
   /\ gate' = TRUE
   /\ IF pending \subseteq slabL THEN pending' = {} /\ UNCHANGED crashed
      ELSE crashed' = TRUE /\ UNCHANGED pending
-  /\ UNCHANGED <<cfg, rl, slabL, base, rcl, rbe, queue, out, n, term, shut, stopped, handed, allOk, hist, prev>>
+  /\ UNCHANGED <<cfg, rl, slabL, base, rcl, rbe, queue, out, n, term, shut, stopped, handed, allOk, hist, prev, held>>
+
+\* Environment: OS-level faults of the commands that touch sockets. A foreign process binds a listener
+\* address with a socket that has no SO_REUSEPORT (possible only while no proxy listener is bound to
+\* it); from then on server_bind / udp_bind on that address fail with EADDRINUSE, until it lets go.
+\* The steps are recorded in hist (the generator replays them) and do not count as requests.
+ListenAddrs == {LDef[l].addr : l \in Listeners}
+BoundBySozu(a) == \E x \in rl : LDef[x.l].addr = a /\ x.sock
+EnvStep(k, a) == [req |-> [k |-> k, a |-> a], st |-> "env", accepted |-> TRUE, base |-> base]
+Env_HoldAddress(a) ==
+  /\ Faults /\ ~stopped /\ ~crashed /\ shut = 0 /\ ~handed
+  /\ a \in ListenAddrs \ held /\ ~BoundBySozu(a)
+  /\ held' = held \cup {a}
+  /\ hist' = Append(hist, EnvStep("EnvHold", a)) /\ prev' = MCView
+  /\ UNCHANGED <<cfg, rl, slabL, base, rcl, rbe, queue, out, n, term, shut, stopped, handed, allOk, gate, pending, crashed>>
+Env_ReleaseAddress(a) ==
+  /\ Faults /\ ~stopped /\ ~crashed /\ a \in held
+  /\ held' = held \ {a}
+  /\ hist' = Append(hist, EnvStep("EnvRelease", a)) /\ prev' = MCView
+  /\ UNCHANGED <<cfg, rl, slabL, base, rcl, rbe, queue, out, n, term, shut, stopped, handed, allOk, gate, pending, crashed>>
+EnvFault == \E a \in ListenAddrs : Env_HoldAddress(a) \/ Env_ReleaseAddress(a)
 
 Next == (\E r \in Requests : Recv(r)) \/ Flush \/ LoopEnd
         \/ Env_Saturate \/ (\E x \in rl : Env_Connect(x)) \/ Env_Release
+        \/ EnvFault
 Spec == Init /\ [][Next]_vars
 \* generator: request steps only (flushing and the soft-stop check are the harness's epilogue)
-GenSpec == Init /\ [][\E r \in Requests : Recv(r)]_vars
+GenSpec == Init /\ [][(\E r \in Requests : Recv(r)) \/ EnvFault]_vars
 FairSpec == Spec /\ WF_vars(Flush) /\ WF_vars(LoopEnd)
 
 ---------------------------------------------------------------------------
 (* Views                                                                   *)
 
 RtListenerState(l) == IF Entries(l) = {} THEN "absent"
-                      ELSE IF \E x \in Entries(l) : x.active THEN "active" ELSE "inactive"
+                      ELSE IF \E x \in Entries(l) : x.sock THEN "active" ELSE "inactive"
 RtRoutes == UNION {x.routes : x \in rl}
 RtTcp == {t \in TFronts : \E x \in Entries(TDef[t].l) : x.tcl = TDef[t].cluster}
 
@@ -366,28 +409,29 @@ RtTcp == {t \in TFronts : \E x \in Entries(TDef[t].l) : x.tcl = TDef[t].cluster}
 ClusterBackends(c) == {b \in rbe : BDef[b].cluster = c}
 Answer(c) == IF ClusterBackends(c) = {} THEN {"503"} ELSE ClusterBackends(c)
 HttpProbe(l, h) ==
-  LET act == {x \in Entries(l) : x.active} IN
+  LET act == {x \in Entries(l) : x.sock} IN
   IF act = {} THEN {"refused"}
   ELSE UNION {IF h \in RouteHosts(x)
               THEN UNION {Answer(FDef[f].cluster) : f \in {g \in x.routes : FDef[g].host = h}}
               ELSE {"404"} : x \in act}
 TcpProbe(l) ==
-  LET act == {x \in Entries(l) : x.active} IN
+  LET act == {x \in Entries(l) : x.sock} IN
   IF act = {} THEN {"refused"}
   ELSE UNION {IF x.tcl = "none" \/ ClusterBackends(x.tcl) = {} THEN {"closed"} ELSE ClusterBackends(x.tcl) : x \in act}
 Probes == [l \in Listeners |->
              IF LDef[l].proto = "http" THEN [h \in Hosts |-> HttpProbe(l, h)]
              ELSE IF LDef[l].proto = "tcp" THEN [h \in {"-"} |-> TcpProbe(l)]
-             ELSE [h \in {"-"} |-> IF \E x \in Entries(l) : x.active THEN {"open"} ELSE {"refused"}]]
+             ELSE [h \in {"-"} |-> IF \E x \in Entries(l) : x.sock THEN {"open"} ELSE {"refused"}]]
 
 ---------------------------------------------------------------------------
 (* Properties (C08)                                                        *)
 
 TypeOK ==
   /\ n \in 0..MaxReq /\ shut \in 0..MaxReq /\ base \in Nat
-  /\ \A x \in rl : x.l \in Listeners /\ x.tok \in Nat /\ x.active \in BOOLEAN
+  /\ \A x \in rl : x.l \in Listeners /\ x.tok \in Nat /\ x.active \in BOOLEAN /\ x.sock \in BOOLEAN
   /\ rcl \subseteq Clusters /\ rbe \subseteq Backends
   /\ gate \in BOOLEAN /\ crashed \in BOOLEAN /\ pending \subseteq Nat
+  /\ held \subseteq ListenAddrs
 
 \* (a) exactly one terminal answer per received request; the pending soft stop has none yet
 P_C08_ExactlyOnce ==
@@ -416,6 +460,26 @@ P_C08_BaseCount ==
 \* (a crashed worker answers nothing any more): every remembered token is a live slab entry
 P_C08_NoStaleAccept == ~crashed /\ pending \subseteq slabL
 
+---------------------------------------------------------------------------
+(* Properties (C07, worker side: commands that touch sockets)              *)
+
+\* a request answered Failure leaves the proxies - what clients observe and what later requests
+\* meet - exactly as they were (the worker's ConfigState copy is the business of ConfigState.tla /
+\* Sozu.tla, open finding worker-keeps-refused)
+RefusedNoTrace ==
+  (n' = n + 1 /\ hist'[Len(hist')].st = "failure") => UNCHANGED <<rl, slabL, base, rcl, rbe>>
+P_C07_RefusedNoTrace == [][RefusedNoTrace]_vars
+
+\* flag and socket move in lockstep: a listener whose activation was answered Ok really listens,
+\* and one that does not listen can be activated
+P_C07_ActiveListens == \A x \in rl : x.active = x.sock
+
+\* an ActivateListener answered Ok: some listener of that address is bound afterwards
+ActivatedListens ==
+  (n' = n + 1 /\ hist'[Len(hist')].st = "ok" /\ hist'[Len(hist')].req.k = "Activate")
+     => \E x \in rl' : x.l = hist'[Len(hist')].req.a /\ x.sock
+P_C07_ActivatedListens == [][ActivatedListens]_vars
+
 P_C08 == P_C08_ExactlyOnce /\ P_C08_Converged /\ P_C08_BaseCount /\ P_C08_NoStaleAccept
 
 ---------------------------------------------------------------------------
@@ -424,7 +488,8 @@ P_C08 == P_C08_ExactlyOnce /\ P_C08_Converged /\ P_C08_BaseCount /\ P_C08_NoStal
 (* and state afterwards.                                                   *)
 
 StateNow == [cfg |-> cfg, base |-> base, slab |-> SlabLen, rcl |-> rcl, rbe |-> rbe,
-             probes |-> Probes, shut |-> shut, stopped |-> stopped, handed |-> handed, allOk |-> allOk]
+             probes |-> Probes, shut |-> shut, stopped |-> stopped, handed |-> handed, allOk |-> allOk,
+             held |-> held]
 
 EmitState ==
   (Emit /\ Len(hist) > Len(Preamble)) => PrintT(<<"REPLAY", ToJson([hist |-> hist, state |-> StateNow])>>)
